@@ -371,6 +371,7 @@ func init() {
 			if c.Tier == "thorough" {
 				depth = 4
 			}
+			mc.SeqFullDepth = 1 // every state costs thousands of partitionings; its oracle reads, it does not write
 			st := mc.DriveSeq(c, "bfs", 0, len(c13Alphabet()), depth)
 			c.Cov["states"] = st.States
 			c.Cov["transitions"] = st.Transitions
